@@ -26,18 +26,20 @@ pub fn schedules(n: usize) -> Vec<Vec<Piece>> {
 }
 
 pub fn run(ctx: &Ctx) -> Outcome {
-    let cfgs = ctx.cfgs();
+    let cfgs = ctx.cfgs_with_sweep();
     let units: Vec<(&Cfg, &BlockModeDesc)> = cfgs.iter().flat_map(|c| c.block_modes.iter().filter(|d| matches!(d.mode, "cbc" | "pcbc" | "ige")).map(move |d| (*c, d))).collect();
     let tier = ctx.tier;
     let seed = ctx.seed;
     let reports = par_map(&units, |(cfg, d)| {
         let mut rep = Report::new(format!("{}/{}-{}", cfg.name, d.mode, d.dir.s()));
         let par = par_of(cfg);
-        let nmax = tier.pick(2 * par + 2, 3 * par + 3);
+        // all-sizes sweep configurations (thorough): every block size 1..=255 with reduced bounds
+        let sweep = cfg.sets.contains('s');
+        let nmax = if sweep { 5 } else { tier.pick(2 * par + 2, 3 * par + 3) };
         let keys = keys(seed, cfg.key_len);
-        for key in keys.iter().take(tier.pick(1, 2)) {
-            for (ivn, iv) in iv_variants(seed, d.iv_len) {
-                for (dn, data) in data_variants(seed, 0xC02, nmax * d.mbs) {
+        for key in keys.iter().take(if sweep { 1 } else { tier.pick(1, 2) }) {
+            for (ivn, iv) in iv_variants(seed, d.iv_len).into_iter().skip(if sweep { 2 } else { 0 }) {
+                for (dn, data) in data_variants(seed, 0xC02, nmax * d.mbs).into_iter().skip(if sweep { 2 } else { 0 }) {
                     let pre = dirty(nmax * d.mbs);
                     for n in 0..=nmax {
                         let inp = &data[..n * d.mbs];
@@ -72,7 +74,7 @@ pub fn run(ctx: &Ctx) -> Outcome {
     let mut o = merge(reports);
     o.rule = "stateless exhaustive: (mode in cbc/pcbc/ige) x direction x configuration x key x IV x data pattern x n blocks x schedule (all single-block calls, one call, every two-way split) x call form; output and iv_state() compared with the reference recurrence after every call; decryptors are fed the data patterns as ciphertext".into();
     o.configs = cfgs.iter().map(|c| c.name.clone()).collect();
-    o.bounds = vec![("max_blocks".into(), J::Str(tier.pick("2*PAR+2", "3*PAR+3").into())), ("keys".into(), J::Int(tier.pick(1, 2))), ("ivs".into(), J::Int(3)), ("data_patterns".into(), J::Int(3))];
+    o.bounds = vec![("all_sizes_sweep".into(), J::Str(if tier == Tier::Thorough && cfgs.iter().any(|c| c.sets.contains('s')) { "every block size 1..=255 (parallel width 2) with reduced length bounds".into() } else { "not in this tier".to_string() })), ("max_blocks".into(), J::Str(tier.pick("2*PAR+2", "3*PAR+3").into())), ("keys".into(), J::Int(tier.pick(1, 2))), ("ivs".into(), J::Int(3)), ("data_patterns".into(), J::Int(3))];
     o.assumptions = vec!["reference recurrences validated against the published AES vectors (CBC, PCBC, IGE) at start-up".into(), "data-oblivious control flow (three data patterns)".into()];
     o
 }
